@@ -10,7 +10,7 @@ import Strengths.Model.SystemState
 namespace Strengths
 open Gen
 
-theorem siFactor_add {U : Sys} (hU : U.valid = true) (d e : Dim) :
+theorem siFactor_add_ss {U : Sys} (hU : U.valid = true) (d e : Dim) :
     siFactor U (d.add e) = siFactor U d * siFactor U e := by
   unfold siFactor Dim.add
   rw [zpow_add₀ (Sys.sSpace_ne hU), zpow_add₀ (Sys.sTime_ne hU), zpow_add₀ (Sys.sQty_ne hU)]
@@ -29,7 +29,7 @@ theorem entry_si {dens vol : UVal} {target : Sys} (hd : dens.u.sys.valid = true)
     ((uvalMul dens vol).toSys target).si = dens.si * vol.si := by
   rw [toSys_si _ ht]
   simp only [uvalMul, UVal.si, UVal.toSys]
-  rw [siFactor_add hd, convFactor_eq_div]
+  rw [siFactor_add_ss hd, convFactor_eq_div]
   have := siFactor_ne hd vol.u.dim
   field_simp
 
